@@ -73,3 +73,19 @@ Example C13_nonvacuous :
   pivots (-3) 2 2 [[-1;-1];[-1;1]] [0%nat] [0%nat] [] [] = PViol [0;1]%nat [0;1]%nat /\
   tpivot 2 2 [[-1;1];[1;1]] 1 0 = [[-1;-1];[-1;1]].
 Proof. split; vm_compute; reflexivity. Qed.
+
+(* pivots and total unimodularity (TuPivot.v, MathComp): the ternary pivot maps TU matrices to TU matrices and non-TU
+   ones to non-TU ones; the pivot over Z of a TU matrix stays TU (so the regular pivot never reports a violator on a TU
+   matrix and every violator it reports witnesses a matrix that is not TU) *)
+From Cmr Require TuPivot.
+Theorem C13_ternary_pivot_preserves_TU : forall m n M r c,
+  wf_mat m n M = true -> is_ternary M = true -> Nat.ltb r m = true -> Nat.ltb c n = true -> get M r c <> 0 ->
+  tu_bf m n (tpivot m n M r c) = tu_bf m n M.
+Proof. exact TuPivot.tu_bf_tpivot_std. Qed.
+Print Assumptions C13_ternary_pivot_preserves_TU.
+
+Theorem C13_pivot_over_Z_preserves_TU : forall m n M r c,
+  Nat.ltb r m = true -> Nat.ltb c n = true -> (get M r c = 1 \/ get M r c = -1) ->
+  tu_bf m n M = true -> tu_bf m n (pivot_raw m n M r c) = true.
+Proof. exact TuPivot.tu_bf_pivot_raw_std. Qed.
+Print Assumptions C13_pivot_over_Z_preserves_TU.
